@@ -104,6 +104,10 @@ def random_history(rng, t):
     if t == "cni" and rng.random() < 0.25:
         n = [rng.choice([1, 2, 3]) for _ in range(3)]
         unequal = len(set(n)) > 1
+    if t in DASH and rng.random() < 0.3:
+        # DashMap-backed indices created inside pools of different sizes: the shard count is a process constant
+        # (`shards_count()` is evaluated once), so the model does not depend on n; `unequal` stays False
+        n = [rng.choice([1, 2, 3, 4]) for _ in range(3)]
     violate = t in CONC and rng.random() < 0.08     # leave the freeze protocol once in a while
     frozen = [False] * 3
     ops = []
@@ -785,6 +789,9 @@ def nontrivial(c):
     return w and r
 
 
+SHARD_ANOMALY = []
+
+
 def shard_tables(binary):
     """measure the real shard placement of keys 0..NKEYS-1 for each DashMap type and process flavour"""
     prelude = []
@@ -795,7 +802,9 @@ def shard_tables(binary):
         for t, l in zip(("cri", "cfi", "clat"), outl):
             f = [int(x) for x in l.split()]
             if f[0] != nsh:
-                raise lib.Infra("shards_count in flavour %s is %d, expected %d" % (suite, f[0], nsh))
+                # not raised here: the histories run first, so that a failing input (e.g. a merge of indices created in
+                # pools of different sizes) is reported when there is one; run() raises it afterwards otherwise
+                SHARD_ANOMALY.append("shards_count in flavour %s is %d, expected %d" % (suite, f[0], nsh))
             tables[(t, suite)] = f[1:]
             prelude.append("Definition H_%s_%s := tbl_hash [%s]." % (t, suite, "; ".join("(%d, %d)" % (k, s) for k, s in enumerate(f[1:]))))
     return "\n".join(prelude) + "\n", tables
@@ -857,6 +866,7 @@ def tie(tier, seed, replay):
                 cont["mismatches"] += r["mismatches"]
                 cont["evaluations"] += r["evaluations"]
         cases = [c for c in corpus if c.get("family") != c19_contention.FAMILY] + gen_cases(tier, seed)
+    del SHARD_ANOMALY[:]
     hprelude, tables = shard_tables(binary)
     # implementation
     impl = [None] * len(cases)
@@ -936,6 +946,8 @@ def tie(tier, seed, replay):
                              what="correspondence Index/IndexModel.v (%s) vs ascent::internal on output %d: impl %r model %r  [history: %s]" % (
                                  t, j, ci[j] if j < len(ci) else None, cm[j] if j < len(cm) else None, case_line(c))))
     nfail = len(unequal_eqn_fail)
+    if SHARD_ANOMALY and not mism:
+        raise lib.Infra("; ".join(SHARD_ANOMALY))
     # the model index types UNDER the generated code: Engine/ConcreteEval.v (every index field a value of IndexModel.v's hvec / fmap,
     # every step the modelled operation) on FRONT-dumped plans vs the real index fields of compiled programs after run() / push; run()
     conc = None
